@@ -199,7 +199,16 @@ inline T_Wrap<T_Rhs*, T_Sbx> memcpy(rlbox_sandbox<T_Sbx>& sandbox,
   // inside the sandbox and end outside, and vice versa
   // src may or may not be a wrapper, so use unwrap_value
   const void* src_start = detail::unwrap_value(src);
-  detail::check_range_doesnt_cross_app_sbx_boundary(sandbox, src_start, num_val);
+  if constexpr (detail::rlbox_is_wrapper_v<detail::remove_cv_ref_t<T_Lhs>>) {
+    // A tainted src designates sandbox memory, possibly that of another
+    // instance of this sandbox type: the range has to stay inside the sandbox it
+    // starts in, whichever one that is
+    detail::check_range_doesnt_cross_app_sbx_boundary<T_Sbx>(src_start,
+                                                             num_val);
+  } else {
+    detail::check_range_doesnt_cross_app_sbx_boundary(
+      sandbox, src_start, num_val);
+  }
 
   std::memcpy(dest_start, src_start, num_val);
 
@@ -236,7 +245,14 @@ inline tainted_int_hint memcmp(rlbox_sandbox<T_Sbx>& sandbox,
   // inside the sandbox and end outside, and vice versa
   // src may or may not be a wrapper, so use unwrap_value
   const void* src_start = detail::unwrap_value(src);
-  detail::check_range_doesnt_cross_app_sbx_boundary(sandbox, src_start, num_val);
+  if constexpr (detail::rlbox_is_wrapper_v<detail::remove_cv_ref_t<T_Lhs>>) {
+    // See memcpy
+    detail::check_range_doesnt_cross_app_sbx_boundary<T_Sbx>(src_start,
+                                                             num_val);
+  } else {
+    detail::check_range_doesnt_cross_app_sbx_boundary(
+      sandbox, src_start, num_val);
+  }
 
   int ret = std::memcmp(dest_start, src_start, num_val);
   tainted_int_hint converted_ret(ret);
